@@ -301,6 +301,12 @@ SPECIAL = {
                      "  subroutine suse(v)\n    type(sbt) :: v, w\n    call v%sbg(1)\n    w = v + v\n  end subroutine suse\nend module sbm\n",
     "abstract_deferred": "module sam\n  implicit none\n  type, abstract :: sat\n  contains\n    procedure(sai), deferred :: sad\n  end type sat\n  abstract interface\n    subroutine sai(self)\n      import :: sat\n"
                          "      class(sat) :: self\n    end subroutine sai\n  end interface\ncontains\n  subroutine suse2(v)\n    class(sat) :: v\n    call v%sad()\n  end subroutine suse2\nend module sam\n",
+    # characters whose lower- or upper-case form has another length (U+0130 -> 2 code points, U+00DF -> "SS") in literals
+    # and comments to the left of names: columns computed on a case-folded copy of the line are off
+    "case_folding_length": "module scm\n  implicit none\n  character(len=9) :: sc1 = \"\u0130\u0130\u0130\u0130\u0130\u0130\", sc2\n"
+                           "  character(len=9) :: sc3 = \"\u00df\u00df\u00df\u00df\u00df\u00df\", sc4  ! \u0130\u0130\u0130\n  integer :: sc5 ! \u0130\u0130\u0130\u0130\u0130\u0130\u0130\u0130\ncontains\n"
+                           "  subroutine scs(sca)\n    character(len=*) :: sca\n    sc2 = \"\u0130\u0130\u0130\u0130\" // sca; sc4 = sca\n    sc4 = \"\u00df\u00df\u00df\u00df\" // sc2; sc5 = 1\n"
+                           "    call scs(\"\u0130\u0130\u0130\u0130\u0130\u0130\" // sc2)\n  end subroutine scs\nend module scm\n",
 }
 
 
@@ -511,6 +517,12 @@ def sync_edit(kind, text):
             return None
         p = pt(at[0], at[1] + 3)
         return {"range": {"start": p, "end": p}, "text": "a_long_inserted_entity_name_of_forty_chars, "}
+    if kind == "shorten_decl":
+        # a single-line replacement that moves the rest of a declaration line to the left
+        at = _find(text, "integer :: ")
+        if at is None:
+            return None
+        return {"range": {"start": pt(at[0], at[1]), "end": pt(at[0], at[1] + 7)}, "text": "real"}
     if kind == "ins_lines":
         return {"range": {"start": pt(0, 0), "end": pt(0, 0)}, "text": "! one\n! two\n! three\n"}
     if kind == "del_line":
@@ -530,7 +542,7 @@ def sync_edit(kind, text):
     raise KeyError(kind)
 
 
-SYNC_EDITS = ("ins_decl", "ins_lines", "del_line", "append", "truncate", "full")
+SYNC_EDITS = ("ins_decl", "shorten_decl", "ins_lines", "del_line", "append", "truncate", "full")
 SYNC_EVENTS = [("open", f) for f in SYNC_FILES] + [("close", f) for f in SYNC_FILES] + [("save", "sa.f90")] + \
     [("edit", "sa.f90", k) for k in SYNC_EDITS] + [("edit", "sb.f90", "ins_lines")]
 
@@ -555,8 +567,13 @@ def sync_histories(depth):
     return out
 
 
-def sync_job(hist, acc: Acc):
+def sync_job(job, acc: Acc):
+    """job = (history, ask_between): with ask_between every positional question is also asked after each event, in
+    the same server (a question must not change what a later one is answered: whatever the server remembers from
+    answering has to follow the text)."""
     from fortls.jsonrpc import path_from_uri
+
+    hist, ask_between = job
 
     sc = worker_scratch("c09sync")
     sc.wipe()
@@ -570,6 +587,27 @@ def sync_job(hist, acc: Acc):
     s = server_on(root, ["--incremental_sync"])
     client = {}
     applied = []
+
+    def view(uri):
+        p = path_from_uri(uri) if uri.startswith("file://") else uri
+        f = os.path.basename(p)
+        if os.path.dirname(os.path.realpath(p)) != os.path.realpath(root) or f not in disk:
+            return None
+        return (client[f] if f in client else disk[f]).split("\n")
+
+    def ask(done):
+        tags = {"sync": "open" if "sa.f90" in client else "closed", "asked_between": ask_between,
+                "unsaved": bool(any(e[0] == "edit" for e in done) and "sa.f90" not in client and disk["sa.f90"] == SYNC_A)}
+        hx = [list(e) for e in done]
+        for f in sorted(disk):
+            path = os.path.join(root, f)
+            lines = view(path)
+            for (ln, col) in positions_of(lines):
+                request_all(s, "sync", path, ln, col, acc, f, extra_tags=tags, view=view,
+                            case_extra={"history": hx, "ask_between": ask_between})
+
+    if ask_between:
+        ask(())
     for ev in hist:
         f = ev[1]
         path = os.path.join(root, f)
@@ -596,24 +634,12 @@ def sync_job(hist, acc: Acc):
             if "id" in o and "error" in o:
                 acc.violation(Violation("sync", {"family": "sync", "method": ev[0], "obs": "error_response"},
                                         {"history": [list(e) for e in applied]}, None, str(o)[:200]))
+        if ask_between and len(applied) < len(hist):
+            ask(tuple(applied))
 
-    def view(uri):
-        p = path_from_uri(uri) if uri.startswith("file://") else uri
-        f = os.path.basename(p)
-        if os.path.dirname(os.path.realpath(p)) != os.path.realpath(root) or f not in disk:
-            return None
-        return (client[f] if f in client else disk[f]).split("\n")
-
-    tags = {"sync": "open" if "sa.f90" in client else "closed",
-            "unsaved": bool(any(e[0] == "edit" for e in hist) and "sa.f90" not in client and disk["sa.f90"] == SYNC_A)}
-    hx = [list(e) for e in hist]
-    for f in sorted(disk):
-        path = os.path.join(root, f)
-        lines = view(path)
-        for (ln, col) in positions_of(lines):
-            request_all(s, "sync", path, ln, col, acc, f, extra_tags=tags, view=view, case_extra={"history": hx})
+    ask(hist)
     if len(acc.samples) < 1 and len(hist) >= 3:
-        acc.sample({"history": hx, "client_view_of_sa": (client.get("sa.f90") or disk["sa.f90"])[:200]})
+        acc.sample({"history": [list(e) for e in hist], "client_view_of_sa": (client.get("sa.f90") or disk["sa.f90"])[:200]})
 
 
 # --------------------------------------------------------------------- main
@@ -646,8 +672,9 @@ def main(ctx):
     ctx.add_family("diag_cross_file", xacc, workspaces=len(CROSS))
     depth = 3 if q else 4
     hs = sync_histories(depth)
-    sacc = core.pmap(sync_job, hs, chunk=4, budget_s=900, label="C09/sync")
-    ctx.add_family("sync", sacc, histories=len(hs), depth=depth, events=len(SYNC_EVENTS))
+    sjobs = [(h, False) for h in hs] + [(h, True) for h in hs if len(h) == depth]
+    sacc = core.pmap(sync_job, sjobs, chunk=4, budget_s=900, label="C09/sync")
+    ctx.add_family("sync", sacc, histories=len(hs), depth=depth, events=len(SYNC_EVENTS), asked_after_every_event=len(sjobs) - len(hs))
     ctx.exhaustive = True
     ctx.coverage_extra["bounds"] = {"files": len(sel), "of": len(files), "intrinsic_names": len(names),
                                     "positions": "token start/interior/end + past line end + past EOF" if q else "every column of every line",
@@ -685,7 +712,7 @@ def replay(rec):
         diag_job(tuple(c["case"]), acc)
         return [v.to_json("C09") for v in acc.violations] or None
     elif fam == "sync":
-        sync_job(tuple(tuple(e) for e in c["history"]), acc)
+        sync_job((tuple(tuple(e) for e in c["history"]), bool(c.get("ask_between"))), acc)
         return [v.to_json("C09") for v in acc.violations
                 if (v.case.get("method"), v.case.get("line"), v.case.get("character"), v.case.get("file")) ==
                 (c.get("method"), c.get("line"), c.get("character"), c.get("file"))] or None
